@@ -1,1 +1,2 @@
 import Audit.C19
+import Audit.C20
